@@ -106,6 +106,14 @@ type Ctx struct {
 
 func (c *Ctx) Thorough() bool { return c.Tier == "thorough" }
 
+// Announce writes the literal case (document, schedule, history) to <Tmp>/case.blob before it is
+// executed, so that the driver can attach it to the death of this process.
+func (c *Ctx) Announce(s string) {
+	if c.Tmp != "" {
+		_ = os.WriteFile(c.Tmp+"/case.blob", []byte(s), 0o644)
+	}
+}
+
 // Rng returns the PRNG of one case.
 func (c *Ctx) Rng(prop string, idx int) *rand.Rand {
 	h := fnv.New64a()
@@ -127,6 +135,10 @@ type Prop struct {
 	Assumptions []string
 	// MinNontrivialFrac overrides the default floor (25 %).
 	MinNontrivialFrac float64
+	// CPULimit: CPU seconds one case may burn before the worker exits with status 97 (0 = no bound).
+	CPULimit float64
+	// Exhaustive: the case list enumerates a finite space completely.
+	Exhaustive bool
 }
 
 var Registry = map[string]*Prop{}
